@@ -762,10 +762,11 @@ def replay(path):
 
 def setup():
     source_facts()
-    ok, lg, _failed = build_coq()
+    ok, lg, failed = build_coq()
     if not ok:
-        print(lg[-5000:])
-        raise Infra("Coq build failed")
+        # not an infrastructure failure: a proof that no longer checks is what the check of the property concerned reports
+        print(lg[-3000:])
+        print("setup: Coq targets that do not build: %s (the checks of the properties that depend on them will report it)" % sorted(failed))
     build_modelrun()
     build_harness()
     print("setup ok")
